@@ -17,11 +17,14 @@ package main
 // (Model/Conc.v, cc_locktab); the model runner prints it as `M l.<function> <sequence>`.
 
 import (
+	"fmt"
 	"go/ast"
 	"go/parser"
 	"go/token"
+	"os"
 	"path/filepath"
 	"sort"
+	"strconv"
 	"strings"
 )
 
@@ -403,12 +406,57 @@ func extractLockTable(repo string) []LockLine {
 	return out
 }
 
+func coqBytes(s string) string {
+	var sb strings.Builder
+	sb.WriteString("[")
+	for i := 0; i < len(s); i++ {
+		if i > 0 {
+			sb.WriteString(";")
+		}
+		sb.WriteString(strconv.Itoa(int(s[i])))
+	}
+	sb.WriteString("]%N")
+	return sb.String()
+}
+
+func writeConcTab(repo, out string) {
+	var sb strings.Builder
+	sb.WriteString("(* GENERATED by harness-conc/afcheck conctab from the AST of memmap.go and mem/{file,dir,dirmap}.go —\n")
+	sb.WriteString("   do not edit.  Per Go function: its lock operations in source order (format: sections.go). *)\n")
+	sb.WriteString("From AF Require Import Lib.Bytes.\n\n")
+	sb.WriteString("Definition cc_locktab_src : list (list N * list N) := [\n")
+	rows := extractLockTable(repo)
+	for i, l := range rows {
+		// a comment must not contain the characters that open or close a Coq comment
+		txt := strings.NewReplacer("(*", "( *", "*)", "* )").Replace(l.Name + " : " + l.Seq)
+		fmt.Fprintf(&sb, "  (* %s *)\n  (%s,\n   %s)", txt, coqBytes(l.Name), coqBytes(l.Seq))
+		if i < len(rows)-1 {
+			sb.WriteString(";")
+		}
+		sb.WriteString("\n")
+	}
+	sb.WriteString("].\n")
+	old, _ := os.ReadFile(out)
+	if string(old) != sb.String() {
+		if err := os.WriteFile(out, []byte(sb.String()), 0o644); err != nil {
+			panic(err)
+		}
+	}
+}
+
 func locksTie(c *Ctx) {
-	for _, l := range extractLockTable("/repo") {
+	for _, l := range extractLockTable(repoRoot()) {
 		id := "l." + l.Name
 		c.NCases++
 		c.Case("locks %s %s", id, l.Name)
 		c.Impl("%s %s", id, l.Seq)
 		c.Count("locks:functions")
 	}
+}
+
+func repoRoot() string {
+	if r := os.Getenv("VERIF_REPO"); r != "" {
+		return r
+	}
+	return "/repo"
 }
